@@ -230,9 +230,12 @@ def families():
     from spsdk.utils.crypto.rot import Rot
     from spsdk.utils.database import DatabaseManager, get_db
 
+    # which RoT type a family HAS is not SPSDK's to change: frozen table (anchors/C03/rot_types.json); families added later
+    # are classified by the database
+    frozen = json.load(open(os.path.join(ADIR, "rot_types.json")))
     by_rot = {}
     for f in sorted(Rot.get_supported_families()):
-        by_rot.setdefault(get_db(f).get_str(DatabaseManager.CERT_BLOCK, "rot_type"), []).append(f)
+        by_rot.setdefault(frozen.get(f) or get_db(f).get_str(DatabaseManager.CERT_BLOCK, "rot_type"), []).append(f)
     cmpa, dat = set(CMPA.get_supported_families()), set(DebugCredentialCertificate.get_supported_families())
     for rot, fams in by_rot.items():
         _fam[(rot, "rot")] = fams
@@ -241,8 +244,12 @@ def families():
     return _fam
 
 
+def fam_kind(path):
+    return "pfr" if path == "pfr" else "dc" if path in ("dc", "dc_parse") else "rot"
+
+
 def family_for(rot, path, pick):
-    kind = path if path in ("pfr", "dc") else "rot"
+    kind = fam_kind(path)
     fams = families().get((rot, kind)) or []
     if not fams:
         raise Machinery(f"no family for {rot}/{path}")
@@ -264,10 +271,15 @@ def compute(c, fam, files=None, workdir=None):
             if path == "rkht_parse":
                 r = RKHTv1.parse(r.export()) if rot == "cert_block_1" else RKHTv21.parse(r.export(), r.hash_algorithm)
             return val(r.rkth()), 0
-        if path == "rot":
+        if path in ("rot", "rot_table"):
             from spsdk.utils.crypto.rot import Rot
 
-            return val(Rot(fam, "latest", keys_or_certs=ins, password=pw).calculate_hash()), 0
+            r = Rot(fam, "latest", keys_or_certs=ins, password=pw)
+            return val(r.calculate_hash() if path == "rot" else r.export()), 0
+        if path == "keyhash":
+            from spsdk.pfr.pfr import calc_pub_key_hash
+
+            return val(calc_pub_key_hash(ins[0], 384 if keys[0]["cls"] == "p384" else 256)), 0
         if path == "cli":
             from click.testing import CliRunner
 
@@ -300,17 +312,21 @@ def compute(c, fam, files=None, workdir=None):
             data = area.export(keys=pubs, draw=False)
             reg = area.registers.find_reg("ROTKH")
             return val(data[reg.offset:reg.offset + reg.width // 8]), reg.width // 8
-        if path in ("certblock", "certblock_parse", "certblock_cfg"):
+        if path in ("certblock", "certblock_parse", "certblock_cfg", "certblock_fuses"):
             return val(certblock_rkth(c, ins, fam, workdir)), 0
-        if path == "dc":
+        if path in ("dc", "dc_parse"):
             from spsdk.dat.debug_credential import DebugCredentialCertificate
 
             uk = keys[used - 1]
             dck = {"cls": uk["cls"], "id": 7} if uk["cls"] in ("p256", "p384") else {"cls": uk["cls"], "id": 4 if uk["id"] != 4 else 3}
             cfg = {"family": fam, "revision": "latest", "rot_meta": ins, "rot_id": used - 1, "dck": kfile(kname(dck), "pub.pem"),
                    "rotk": kfile(kname(uk), "priv.pem"), "uuid": "00" * 16, "cc_socu": "0x3FF", "cc_vu": 0, "cc_beacon": 0}
-            return val(DebugCredentialCertificate.create_from_yaml_config(cfg).calculate_hash()), 0
-        if path in ("srk", "srk_parse", "srk_cfg"):
+            dc = DebugCredentialCertificate.create_from_yaml_config(cfg)
+            if path == "dc_parse":  # the credential file carries the RoT meta: what a reader of the file computes
+                dc.sign()
+                dc = DebugCredentialCertificate.parse(dc.export())
+            return val(dc.calculate_hash()), 0
+        if path in ("srk", "srk_parse", "srk_cfg", "srk_fuses"):
             return val(srk_hash(c, ins)), 0
     except Exception as e:  # noqa: BLE001 - recorded, decided by the spec
         return fail(e), 0
@@ -323,8 +339,11 @@ def certblock_rkth(c, ins, fam, workdir):
     rot, path, used = c["rot"], c["path"], c["used"]
     if path == "certblock_cfg":
         cfg = {f"rootCertificate{i}File": p for i, p in enumerate(ins)}
-        cfg["mainRootCertId"] = used - 1
         priv = kfile(kname(c["keys"][used - 1]), "priv.pem")
+        # which key signs is given by the index or - in every second case - only by the private key (SPSDK finds the index);
+        # the latter only when the used key occurs once in the list
+        if int(sha(c), 16) % 2 == 0 or c["keys"].count(c["keys"][used - 1]) > 1:
+            cfg["mainRootCertId"] = used - 1
         if rot == "cert_block_1":
             cfg["mainCertPrivateKeyFile"] = priv
             return CertBlockV1.from_config(cfg, search_paths=[workdir]).rkth
@@ -337,6 +356,8 @@ def certblock_rkth(c, ins, fam, workdir):
             cb.set_root_key_hash(i, cert)
         if path == "certblock_parse":
             cb = CertBlockV1.parse(cb.export())
+        if path == "certblock_fuses":  # the list of fuse words for blhost: little-endian words of the RKTH, in order
+            return b"".join(w.to_bytes(4, "little") for w in cb.rkth_fuses)
         return cb.rkth
     cb = CertBlockV21(root_certs=ins, used_root_cert=used - 1, ca_flag=True)
     cb.calculate()
@@ -355,6 +376,8 @@ def srk_hash(c, ins):
             t.append(SrkItem.from_certificate(cert))
         if path == "srk_parse":
             t = SrkTable.parse(t.export())
+        if path == "srk_fuses":  # the eight fuse words (efuse_write_once format): little-endian words of the hash
+            return b"".join(struct.pack("<I", t.get_fuse(i)) for i in range(8))
         return t.export_fuses()
     from spsdk.image.ahab.ahab_srk import SRKRecord, SRKRecordV2, SRKTable, SRKTableV2
 
@@ -614,20 +637,20 @@ def fmts_for(rot, path, is_used, r):
     files = ["pub.pem", "pub.der", "pub.raw", "priv.pem", "priv.der", "priv.trad.pem", "crt.pem", "crt.der", "ca.pem", "ca.der"]
     certs = ["crt.pem", "crt.der", "ca.pem", "ca.der"]
     if rot == "srk_table_hab":
-        if path == "rot":
+        if path in ("rot", "rot_table"):
             return r.choice([{"form": "obj", "fmt": "crt"}, {"form": "obj", "fmt": "ca"}] + [{"form": f, "fmt": x} for f in ("bytes", "path") for x in certs])
         if path == "cli":
             return {"form": "path", "fmt": r.choice(certs)}
         return {"form": "obj", "fmt": r.choice(["crt", "ca"])}
-    if path in ("rkht", "rkht_parse", "rot"):
+    if path in ("rkht", "rkht_parse", "rot", "rot_table"):
         return r.choice([{"form": "obj", "fmt": x} for x in ("pub", "priv", "crt", "ca")] + [{"form": f, "fmt": x} for f in ("bytes", "path") for x in files])
-    if path in ("cli", "dc", "srk_cfg"):
+    if path in ("cli", "dc", "dc_parse", "srk_cfg"):
         return {"form": "path", "fmt": r.choice(files)}
     if path == "pfr":
         return r.choice([{"form": "obj", "fmt": "pub"}] + [{"form": "path", "fmt": x} for x in files])
-    if path in ("srk", "srk_parse"):
+    if path in ("srk", "srk_parse", "keyhash"):
         return {"form": "obj", "fmt": "pub"}
-    if path in ("certblock", "certblock_parse"):
+    if path in ("certblock", "certblock_parse", "certblock_fuses"):
         if rot == "cert_block_1":
             return {"form": "obj", "fmt": "crt" if is_used else r.choice(["crt", "ca"])}
         return r.choice([{"form": "obj", "fmt": "pub"}] + [{"form": "bytes", "fmt": x} for x in files])
@@ -636,11 +659,13 @@ def fmts_for(rot, path, is_used, r):
     return {"form": "path", "fmt": r.choice(files)}
 
 
-PATHS = {"cert_block_1": ["rkht", "rkht_parse", "rot", "cli", "pfr", "certblock", "certblock_parse", "certblock_cfg", "dc"],
-         "cert_block_21": ["rkht", "rkht_parse", "rot", "cli", "pfr", "certblock", "certblock_parse", "certblock_cfg", "dc"],
-         "srk_table_ahab": ["rot", "cli", "srk", "srk_parse", "srk_cfg", "dc"],
-         "srk_table_ahab_v2": ["rot", "cli", "srk", "srk_parse", "srk_cfg"],
-         "srk_table_hab": ["rot", "cli", "srk", "srk_parse"]}
+PATHS = {"cert_block_1": ["rkht", "rkht_parse", "rot", "cli", "pfr", "certblock", "certblock_parse", "certblock_cfg", "certblock_fuses", "dc", "dc_parse",
+                          "rot_table", "keyhash"],
+         "cert_block_21": ["rkht", "rkht_parse", "rot", "cli", "pfr", "certblock", "certblock_parse", "certblock_cfg", "dc", "dc_parse", "rot_table", "keyhash"],
+         "srk_table_ahab": ["rot", "cli", "srk", "srk_parse", "srk_cfg", "dc", "dc_parse", "rot_table"],
+         "srk_table_ahab_v2": ["rot", "cli", "srk", "srk_parse", "srk_cfg", "rot_table"],
+         "srk_table_hab": ["rot", "cli", "srk", "srk_parse", "srk_fuses", "rot_table"]}
+USED_PATHS = ("certblock", "certblock_parse", "certblock_cfg", "certblock_fuses", "dc", "dc_parse")
 
 
 def sampled_cases(r, n, quick):
@@ -662,10 +687,13 @@ def sampled_cases(r, n, quick):
             cls = [c0] * cnt
         if path == "rkht_parse" and rot == "cert_block_21" and cnt < 2:
             continue
-        if path == "dc":  # the DAT protocol versions know RSA-2048 and RSA-4096 only
+        if path in ("dc", "dc_parse"):  # the DAT protocol versions know RSA-2048 and RSA-4096 only
             cls = ["rsa2048" if x == "rsa3072" else x for x in cls]
+        if path == "keyhash":
+            cls = cls[:1]
+            cnt = 1
         keys = [{"cls": x, "id": r.randrange(1, 5 if x.startswith("rsa") else 7)} for x in cls]
-        used = r.randrange(1, cnt + 1) if path in ("certblock", "certblock_parse", "certblock_cfg", "dc") else 0
+        used = r.randrange(1, cnt + 1) if path in USED_PATHS else 0
         encs = [fmts_for(rot, path, i + 1 == used, r) for i in range(cnt)]
         if "ahab" in rot:  # one CA flag for the whole table
             ca = encs[0]["fmt"].startswith("ca")
@@ -821,7 +849,22 @@ def run(tier):
 
     # ---- sampled cases go through the generator too: TLC checks that they are in the asserted domain and emits their terms
     extra_file = os.path.join(sc, "c03-extra.ndjson")
-    extra = sampled_cases(r, 300 if quick else 6000, quick)
+    extra = sampled_cases(r, 300 if quick else 3000, quick)
+    # family sweep: EVERY family of the database once through Rot (dispatch by rot type) and once through its CMPA / DAT path
+    pinned = {}
+    for (rot, kind), fams in sorted(families().items()):
+        if rot not in PATHS:  # cert_block_x: not named by the property
+            continue
+        for i, fam in enumerate(fams):
+            cls = {"cert_block_1": "rsa2048", "cert_block_21": ("p256", "p384")[i % 2]}.get(rot, ("p256", "p384", "p521")[i % 3])
+            n = 4 if "ahab" in rot else 1 + i % 4
+            path = {"rot": "rot", "pfr": "pfr", "dc": "dc"}[kind]
+            if rot == "srk_table_ahab_v2" and kind == "dc":
+                continue
+            enc = {"form": "path", "fmt": "ca.der" if rot == "srk_table_hab" else "pub.pem"}
+            c = {"rot": rot, "keys": [{"cls": cls, "id": 1 + (i + j) % 4} for j in range(n)], "encs": [enc] * n, "path": path, "used": 1 + i % n if kind == "dc" else 0}
+            pinned.setdefault(json.dumps(c, sort_keys=True), []).append(i)
+            extra.append(c)
     with open(extra_file, "w") as f:
         for c in extra:
             f.write(json.dumps(c) + "\n")
@@ -872,7 +915,10 @@ def run(tier):
     v.extra["anchors"] = f"{n_anchor} golden values (stored hashes of the repository's test keys, HAB / AHAB tables) reproduced by the spec's terms"
 
     # ---- execute on the real code
-    jobs = [(i, c, term, 0 if quick else i) for i, (c, term) in enumerate(cases)]
+    jobs = []
+    for c, term in cases:
+        for pick in pinned.get(json.dumps(c, sort_keys=True)) or [0 if quick else len(jobs)]:
+            jobs.append((len(jobs), c, term, pick))
     order = list(range(len(jobs)))
     r.shuffle(order)  # spread the expensive (RSA private key) cases over the workers
     traces = pmap(run_case, [jobs[i] for i in order], chunksize=16)
@@ -889,7 +935,7 @@ def run(tier):
             v.nontrivial(sha([[{k: x for k, x in e.items() if k in ("a", "c", "keys", "used", "isk", "udLen", "cons", "len", "img", "build", "f", "k", "enc", "rot", "files", "path")}
                                 for e in t["ev"]]]))
     by_id = {t["id"]: t for t in traces}
-    for i in (3, len(cases) // 2, 1000000, 2000003, 3000005):
+    for i in (3, len(jobs) // 2, 1000000, 2000003, 3000005):
         if i in by_id:
             v.sample(slim(by_id[i]))
 
@@ -942,9 +988,9 @@ def run(tier):
         v.violation(key, what, {"kind": "case" if evname == "Compute" else "history", "trace": slim(t), "failed_event": matched + 1, "why": why})
 
     v.cov["rule"] = (
-        f"{len(cases)} Compute cases = TLC-enumerated structure sweep (all key-set shapes incl. mixed RSA sizes and keys with leading zero bytes x "
+        f"{len(jobs)} Compute cases = TLC-enumerated structure sweep (all key-set shapes incl. mixed RSA sizes and keys with leading zero bytes x "
         f"{'all' if not quick else 'four'} orders x used index x every tool path) + encoding sweep (every encoding each path takes, uniform and mixed) + "
-        f"{len(extra)} sampled; histories: {len(behs['cb21'])} cert-block v2.1, {len(behs['cb1'])} v1, {len(behs['files'])} key-file rewrite; "
+        f"{len(extra)} sampled / family sweep (every family of the database through Rot, CMPA, DAT); histories: {len(behs['cb21'])} cert-block v2.1, {len(behs['cb1'])} v1, {len(behs['files'])} key-file rewrite; "
         "a trace is non-trivial if the real code returned a value in it (distinct by the abstract arguments)")
     v.cov["exhaustive"] = False
     v.cov["key_pool"] = f"{nkeys} keys in keys/rot"
@@ -979,7 +1025,7 @@ def replay(path):
         if len(j) != 1:
             raise Machinery("replay: the generator did not return the term of the witness")
         fams = families()
-        kind = c["path"] if c["path"] in ("pfr", "dc") else "rot"
+        kind = fam_kind(c["path"])
         pick = fams[(c["rot"], kind)].index(t["fam"]) if t.get("fam") in fams[(c["rot"], kind)] else 0
         new = run_case((0, c, j[0]["hist"][0]["term"], pick))
     else:
